@@ -125,3 +125,165 @@ Proof. vm_compute. reflexivity. Qed.
 
 Lemma product2_binary64_accepts : opinion_ok64 (product2 (B:=FldB64) eps64 pw0 pw1) = true.
 Proof. vm_compute. reflexivity. Qed.
+
+(* ------------------------------------------------- earlier repairs of cancelling denominators (F7, F3) *)
+(* [bmul_cancelling]: [bmul] with the divisor 1 - a_x a_y computed as written before the repair
+   "binomial mul divides by 1 - a_x a_y computed without cancellation" (1.0 - a); nothing else differs. *)
+Definition bmul_cancelling {B : Fld} (eps : F B) (x y : bop (B:=B)) : option (bop (B:=B)) :=
+  let a := mul (ba x) (ba y) in
+  let ra := sub one a in
+  let b := add (mul (bb x) (bb y))
+               (div (add (mul (mul (mul (sub one (ba x)) (ba y)) (bb x)) (bu y))
+                         (mul (mul (mul (sub one (ba y)) (ba x)) (bb y)) (bu x)))
+                    ra) in
+  let d := sub (add (bd x) (bd y)) (mul (bd x) (bd y)) in
+  let u := add (mul (bu x) (bu y))
+               (div (add (mul (mul (sub one (ba y)) (bb x)) (bu y))
+                         (mul (mul (sub one (ba x)) (bb y)) (bu x)))
+                    ra) in
+  btry_new eps b d u a.
+
+
+(* [bwfuse_cancelling]: [bwfuse] with the denominators u_a + u_b - 2 u_a u_b and 2 - u_a - u_b as written before the
+   repair "binomial wfuse evaluates its denominators without cancellation"; nothing else differs. *)
+Definition bwfuse_cancelling {B : Fld} (eps : F B) (x y : bop (B:=B)) (gamma_a : @V B) : option (bop (B:=B)) :=
+  if Num.is_zero eps (bu x) && Num.is_zero eps (bu y) then
+    let gamma_b := sub one gamma_a in
+    btry_new eps (add (mul gamma_a (bb x)) (mul gamma_b (bb y)))
+             (add (mul gamma_a (bd x)) (mul gamma_b (bd y)))
+             zero
+             (add (mul gamma_a (ba x)) (mul gamma_b (ba y)))
+  else if Num.is_one eps (bu x) && Num.is_one eps (bu y) then
+    btry_new eps zero zero one (div (add (ba x) (ba y)) two)
+  else
+    let ca := sub one (bu x) in
+    let cb := sub one (bu y) in
+    let denom := sub (add (bu x) (bu y)) (mul (mul two (bu x)) (bu y)) in
+    let csum := sub (sub two (bu x)) (bu y) in
+    btry_new eps (div (add (mul (mul (bb x) ca) (bu y)) (mul (mul (bb y) cb) (bu x))) denom)
+             (div (add (mul (mul (bd x) ca) (bu y)) (mul (mul (bd y) cb) (bu x))) denom)
+             (div (mul (mul csum (bu x)) (bu y)) denom)
+             (div (add (mul (ba x) ca) (mul (ba y) cb)) csum).
+
+
+(* F7: x = (1/8, 0, 7/8; 1 - 2^-27), y = (1/8, 0, 7/8; 1 - 2^-28): exactly representable and well-formed.
+   1 - a_x a_y keeps 25 of its 53 bits; the masses then add up to 0.99999999946 and the operator rejects them. *)
+Definition mx : bop (B:=FldB64) :=
+  mkbop (z64 0x3fc0000000000000) (z64 0) (z64 0x3fec000000000000) (z64 0x3feffffffc000000).
+Definition my : bop (B:=FldB64) :=
+  mkbop (z64 0x3fc0000000000000) (z64 0) (z64 0x3fec000000000000) (z64 0x3feffffffe000000).
+
+Lemma mul_binary64_cancelling_fails : fails (bmul_cancelling (B:=FldB64) eps64 mx my) = true.
+Proof. vm_compute. reflexivity. Qed.
+Lemma mul_binary64_accepts :
+  accepted64 (bmul (B:=FldB64) eps64 mx my) (mul (B:=FldB64) (ba mx) (ba my)) = true.
+Proof. vm_compute. reflexivity. Qed.
+
+(* F3: (0.001, 0.002, 0.997; 0.25) wfuse (0.003, 0.001, 0.996; 0.625), the doubles nearest to these decimals
+   (accepted by the constructor): the cancelling denominators give masses adding up to 1 + 3.5e-14. *)
+Definition fx : bop (B:=FldB64) :=
+  mkbop (z64 0x3f50624dd2f1a9fc) (z64 0x3f60624dd2f1a9fc) (z64 0x3fefe76c8b439581) (z64 0x3fd0000000000000).
+Definition fy : bop (B:=FldB64) :=
+  mkbop (z64 0x3f689374bc6a7efa) (z64 0x3f50624dd2f1a9fc) (z64 0x3fefdf3b645a1cac) (z64 0x3fe4000000000000).
+Definition fg : @V FldB64 := z64 0x3fe0000000000000.
+
+Lemma wfuse_binary64_operands_wf :
+  accepted64 (btry_new (B:=FldB64) eps64 (bb fx) (bd fx) (bu fx) (ba fx)) (ba fx) = true /\
+  accepted64 (btry_new (B:=FldB64) eps64 (bb fy) (bd fy) (bu fy) (ba fy)) (ba fy) = true.
+Proof. vm_compute. split; reflexivity. Qed.
+Lemma wfuse_binary64_cancelling_fails : fails (bwfuse_cancelling (B:=FldB64) eps64 fx fy fg) = true.
+Proof. vm_compute. reflexivity. Qed.
+Lemma wfuse_binary64_accepts :
+  match bwfuse (B:=FldB64) eps64 fx fy fg with
+  | Some r => fin64 (bb r) && fin64 (bd r) && fin64 (bu r) && fin64 (ba r)
+  | None => false
+  end = true.
+Proof. vm_compute. reflexivity. Qed.
+
+(* ------------------------------------------------- F4: the cumulative base rate of nearly vacuous operands *)
+(* [compute_base_rate_cancelling]: [compute_base_rate] with the normaliser of the cumulative base rate written as
+   before the repair "fusion evaluates u_l + u_r - 2 u_l u_r without cancellation"; nothing else differs. *)
+Definition compute_base_rate_cancelling {B : Fld} (eps : F B) (op : fuse_op) (same : bool)
+           (lu : @V B) (la : list (@V B)) (ru : @V B) (ra : list (@V B)) : list (@V B) :=
+  let ldog := Num.is_zero eps lu in let rdog := Num.is_zero eps ru in
+  let lvac := Num.is_one eps lu in let rvac := Num.is_one eps ru in
+  if same then la
+  else if ldog && rdog then map2 (fun x y => div (add x y) two) la ra
+  else
+    match op with
+    | ACm | ECm =>
+        if lvac && rvac then mean_or_same eps la ra
+        else if lvac || rdog then ra
+        else if rvac || ldog then la
+        else
+          let lsb := sub one lu in
+          let rsb := sub one ru in
+          let temp := sub (add lu ru) (mul (mul lu ru) two) in
+          map2 (fun x y =>
+                  if aeq eps x y then x
+                  else div (add (mul (mul x ru) lsb) (mul (mul y lu) rsb)) temp) la ra
+    | Avg => mean_or_same eps la ra
+    | Wgh =>
+        if lvac && rvac then mean_or_same eps la ra
+        else if lvac then ra
+        else if rvac then la
+        else
+          let lsb := sub one lu in
+          let rsb := sub one ru in
+          let temp := add lsb rsb in
+          map2 (fun x y =>
+                  if aeq eps x y then x
+                  else div (add (mul x lsb) (mul y rsb)) temp) la ra
+    end.
+
+
+(* u_l = 1 - 5 2^-53, u_r = 1 - 6 2^-53 (neither is vacuous for the crate), base rates (1/4, 3/4) and (5/8, 3/8):
+   the cancelling normaliser is 5 2^-52 instead of 5.5 2^-52 and the fused "base rate" adds up to 1.1. *)
+Definition cl_u : @V FldB64 := z64 0x3feffffffffffffb.
+Definition cr_u : @V FldB64 := z64 0x3feffffffffffffa.
+Definition cl_a : list (@V FldB64) := [z64 0x3fd0000000000000; z64 0x3fe8000000000000].
+Definition cr_a : list (@V FldB64) := [z64 0x3fe4000000000000; z64 0x3fd8000000000000].
+
+Lemma fuse_base_rate_binary64_cancelling_fails :
+  Mul.check_base_rate (B:=FldB64) eps64 (compute_base_rate_cancelling (B:=FldB64) eps64 ACm false cl_u cl_a cr_u cr_a) = false.
+Proof. vm_compute. reflexivity. Qed.
+Lemma fuse_base_rate_binary64_accepts :
+  Mul.check_base_rate (B:=FldB64) eps64 (compute_base_rate (B:=FldB64) eps64 ACm false cl_u cl_a cr_u cr_a) = true.
+Proof. vm_compute. reflexivity. Qed.
+Lemma fuse_base_rate_binary64_not_vacuous :
+  Num.is_one (B:=FldB64) eps64 cl_u || Num.is_one (B:=FldB64) eps64 cr_u = false.
+Proof. vm_compute. reflexivity. Qed.
+
+(* ------------------------------------------------- F3 (cfuse): the fused base rate of nearly vacuous operands *)
+(* [bcfuse_cancelling]: [bcfuse] with the base rate written as before the repair "binomial cfuse base rate evaluated
+   without cancellation"; nothing else differs. *)
+Definition bcfuse_cancelling {B : Fld} (eps : F B) (x y : bop (B:=B)) : option (bop (B:=B)) :=
+  let uu := mul (bu x) (bu y) in
+  let kappa := sub (add (bu x) (bu y)) uu in
+  let b := div (add (mul (bb x) (bu y)) (mul (bb y) (bu x))) kappa in
+  let d := div (add (mul (bd x) (bu y)) (mul (bd y) (bu x))) kappa in
+  let u := div (mul (bu x) (bu y)) kappa in
+  let a := if Num.is_one eps (bu x) && Num.is_one eps (bu y) then div (add (ba x) (ba y)) two
+           else
+             div (sub (add (mul (ba x) (bu y)) (mul (ba y) (bu x))) (mul (add (ba x) (ba y)) uu))
+                 (sub kappa uu) in
+  btry_new eps b d u a.
+
+
+(* x = (7 2^-53, 0, 1 - 7 2^-53; 7/8), y = (0, 12 2^-53, 1 - 12 2^-53; 1): exactly representable, well-formed, neither
+   vacuous for the crate.  The cancelling quotient gives the base rate 1.11 and the operator rejects its result. *)
+Definition kx : bop (B:=FldB64) := mkbop (z64 0x3ccc000000000000) (z64 0) (z64 0x3feffffffffffff9) (z64 0x3fec000000000000).
+Definition ky : bop (B:=FldB64) := mkbop (z64 0) (z64 0x3cd8000000000000) (z64 0x3feffffffffffff4) (z64 0x3ff0000000000000).
+Lemma cfuse_binary64_operands_wf :
+  accepted64 (btry_new (B:=FldB64) eps64 (bb kx) (bd kx) (bu kx) (ba kx)) (ba kx) = true /\
+  accepted64 (btry_new (B:=FldB64) eps64 (bb ky) (bd ky) (bu ky) (ba ky)) (ba ky) = true /\
+  Num.is_one (B:=FldB64) eps64 (bu kx) || Num.is_one (B:=FldB64) eps64 (bu ky) = false.
+Proof. vm_compute. repeat split; reflexivity. Qed.
+Lemma cfuse_binary64_cancelling_fails : fails (bcfuse_cancelling (B:=FldB64) eps64 kx ky) = true.
+Proof. vm_compute. reflexivity. Qed.
+Lemma cfuse_binary64_accepts :
+  match bcfuse (B:=FldB64) eps64 kx ky with
+  | Some r => fin64 (bb r) && fin64 (bd r) && fin64 (bu r) && fin64 (ba r)
+  | None => false
+  end = true.
+Proof. vm_compute. reflexivity. Qed.
